@@ -460,6 +460,9 @@ func evalCond(p *Path, cond ssa.Value, at int, facts map[atomKey]bool) (val, kno
 }
 
 // PathOpts bounds the enumeration.
+// tierThorough deepens every path enumeration (set by the thorough tier).
+var tierThorough bool
+
 type PathOpts struct {
 	MaxPaths  int // default 100000
 	MaxVisits int // visits of one block per path, default 2
@@ -473,6 +476,11 @@ func WalkPaths(fn *ssa.Function, opts PathOpts, visit func(p *Path) bool) (n int
 	}
 	if opts.MaxVisits == 0 {
 		opts.MaxVisits = 2
+	}
+	if tierThorough {
+		// one more unrolling of every loop, and room for the extra paths
+		opts.MaxVisits++
+		opts.MaxPaths *= 20
 	}
 	if len(fn.Blocks) == 0 {
 		return 0, true
